@@ -67,6 +67,11 @@ func c12Scenarios() []c12Scn {
 		out = append(out, c12Scn{reg, "sl", []string{w[0], r[0], r[len(r)-1]}})
 		if reg != "nhandlers" {
 			out = append(out, c12Scn{reg, "sl", []string{w[0], "list", "list"}})
+			// writers only (the state they leave is read by the final list): the same new entry twice, replace || add, ...
+			out = append(out, c12Scn{reg, "sl", []string{"regB", "regB"}}, c12Scn{reg, "sl", []string{"regB", "regA2"}}, c12Scn{reg, "sl", []string{"regA2", "regA2"}})
+			if reg == "tools" {
+				out = append(out, c12Scn{reg, "sl", []string{"unregA", "regA2"}}, c12Scn{reg, "sl", []string{"unregA", "regB"}}, c12Scn{reg, "sl", []string{"unregA", "unregA"}})
+			}
 		}
 	}
 	// once each on the other server kinds (tools registry)
@@ -341,7 +346,7 @@ func c12Run(prefix []int, sc c12Scn) explore.Outcome {
 		r.Start()
 		w.rp = NewRawPeer(r)
 		if err := w.rp.Handshake(); err != nil {
-			viol = append(viol, V("harness", "%v", err))
+			viol = append(viol, V("setup-handshake-fails", "setting the scenario up with well-behaved peers fails: %v", err))
 			return
 		}
 		vsched.Quiesce()
@@ -358,6 +363,16 @@ func c12Run(prefix []int, sc c12Scn) explore.Outcome {
 			})
 		}
 		vsched.Quiesce()
+		if sc.Reg != "nhandlers" {
+			// a list issued after everything returned: the state the writers left behind must be one a
+			// sequential order of them produces (no duplicated, lost or phantom entry survives)
+			ev := &c12Event{Op: "list"}
+			w.evs = append(w.evs, ev)
+			ev.Call = w.clock.Inc()
+			ev.Result = w.do("list", 199)
+			ev.Ret = w.clock.Inc()
+			ev.Finished = true
+		}
 		var parts []string
 		for _, ev := range w.evs {
 			if !ev.Finished {
